@@ -180,15 +180,19 @@ func VerifC14Restart() {
 	offset := verifrt.Choice("first_round_offset", 3)
 	p.TokenFeeders[1].StartBaseBlock = uint64(start) + uint64(offset)
 	p.TokenFeeders[1].Interval = uint64(verifrt.Param("interval", 4))
-	// the feeder may be scheduled to stop: never, inside its first round's window, or in its second round
+	// a submission window of MaxNonce blocks; parameter validation demands interval >= 2*MaxNonce
+	p.MaxNonce = int32(verifrt.Param("max_nonce", 2))
+	// the feeder may be scheduled to stop: never, right after its first round's window, or after
+	// its second round's window (validation forbids an end block inside a window)
 	if verifrt.Param("with_end_block", 1) == 1 {
 		switch verifrt.Choice("feeder_end_block", 3) {
 		case 1:
-			p.TokenFeeders[1].EndBlock = p.TokenFeeders[1].StartBaseBlock + 2
+			p.TokenFeeders[1].EndBlock = p.TokenFeeders[1].StartBaseBlock + uint64(p.MaxNonce)
 		case 2:
-			p.TokenFeeders[1].EndBlock = p.TokenFeeders[1].StartBaseBlock + p.TokenFeeders[1].Interval + 1
+			p.TokenFeeders[1].EndBlock = p.TokenFeeders[1].StartBaseBlock + p.TokenFeeders[1].Interval + uint64(p.MaxNonce) + 1
 		}
 	}
+	verifrt.Assume(p.Validate() == nil)
 	k.SetParams(ctx, p)
 	am := AppModule{keeper: k}
 	ms := keeper.NewMsgServerImpl(k)
